@@ -9,6 +9,9 @@ RULE = ('all four classes x contents at boundary lengths x exhaustive (start,sto
         'on longer contents, indices in and beyond range, operand pairs of all class combinations and promotable str/bytes/list/bitarray, repeat counts -2..70 and a few large; '
         'each kind of case again after a prelude of boundary-valued expressions on unrelated objects (shifts by >= len, empty slices, * 0, empty operands, joins, copies, cuts, zero-width reads, '
         'clear / delete-all; mutable results edited in place), followed by every way of making an empty bitstring and the re-evaluated sequence expressions, each result probed in full; '
+        'integers of every kind wherever the sequence takes an integer (index, slice bound, step, repeat count; item assignment and deletion, refused by the immutable classes): bool, IntEnum, IntFlag, '
+        'int subclasses, numpy fixed-width scalars at the ends of their ranges on contents shorter and longer than they can count, gmpy2-like classes registered with numbers.Integral, and '
+        'ints of up to 30 000 digits around the machine-word and decimal-printing limits, under both numberings, judged by the plain int on the str / list of the bits; '
         'non-trivial = non-empty content and a result that is not the whole operand; distinct by (op, arguments)')
 TRUSTED_BASE = ['L0: Prims.seq_slice/seq_getitem are compared with CPython list slicing on every run (op l0_slice)']
 ASSUMPTIONS = ['bitarray slicing equals Python sequence slicing (modelled as Prims.seq_slice; L0 corr.)', 'msb0 mode (lsb0 is C12)']
@@ -76,6 +79,284 @@ def gen_cases(rng, tier):
     # making an empty bitstring must still give an empty one, and the sequence-level expressions of the prelude, evaluated again, must give what the model gives.
     for _ in range(300 if tier == 'quick' else 4000):
         yield gen_hist(rng, tier)
+    # integers that are not small plain ints, wherever the sequence takes an integer (index, slice bound, step, repeat count; item assignment and deletion on
+    # the mutable classes, refused on the others): every Integral kind, fixed-width kinds around the ends of their range, astronomically large values
+    yield from gen_keys(rng, tier)
+
+# ---------------------------------------------------------------------------------------------------------------------------------------------
+# integers of every kind and size (ops 'kgetitem', 'kslice', 'kmul', 'ksetitem', 'kdelitem')
+#
+# A Python sequence takes ANY integer wherever it takes an integer: seq[k], seq[a:b:c], seq * n, seq[k] = x, del seq[k] answer for bool, IntEnum / IntFlag
+# members, int subclasses (also with their own repr), numpy fixed-width scalars, gmpy2.mpz-like classes registered with numbers.Integral exactly as for the
+# plain int of the same value, and for an int of any size (an index beyond range is IndexError however far beyond, a slice bound is clipped, a step of 10**5000
+# selects one item, a negative count is ValueError) - never an exception caused by arithmetic in the caller's type or by printing the number.
+# A key is JSON: {'t': kind or None, 'v': int} or {'t': kind or None, 'big': [sign, base, exp, add]} for sign * (base ** exp + add), so that a number of 20 000
+# digits is never written out (json and str refuse beyond sys.get_int_max_str_digits()).  The oracle uses the plain int on a str / list of the bits.
+# ---------------------------------------------------------------------------------------------------------------------------------------------
+KEY_NP = {'np.int8': (-128, 127), 'np.int16': (-2 ** 15, 2 ** 15 - 1), 'np.int32': (-2 ** 31, 2 ** 31 - 1), 'np.int64': (-2 ** 63, 2 ** 63 - 1),
+          'np.uint8': (0, 255), 'np.uint16': (0, 2 ** 16 - 1), 'np.uint32': (0, 2 ** 32 - 1), 'np.uint64': (0, 2 ** 64 - 1),
+          'np.longlong': (-2 ** 63, 2 ** 63 - 1), 'np.ulonglong': (0, 2 ** 64 - 1)}
+KEY_UNBOUNDED = [None, 'intsub', 'intsub_repr', 'intenum', 'reg_full', 'reg_min', 'index_only']       # kinds that hold an int of any size
+KEY_KINDS = [None, 'bool', 'intsub', 'intsub_repr', 'intenum', 'intflag', 'reg_full', 'reg_min', 'index_only'] + list(KEY_NP)
+VAL_KINDS = ['bool', 'int', 'str', 'bits', 'intsub', 'np.uint8', 'reg_full']                          # how the single bit assigned by s[k] = x is given
+
+# KNOWN_OPEN: sub-classes that are NOT generated because the unchanged library gets them wrong (reported; remove a tag once the library is repaired / the
+# finding is recorded and the sub-class is exercised from then on):
+#  'lsb0_np_unsigned_item'        under options.lsb0, s[k] and del s[k] with a numpy unsigned scalar: getindex_lsb0 / delitem_lsb0 compute -k - 1 in the caller's
+#                                 type, so Bits('0b01')[numpy.uint8(0)] raises IndexError, and on data longer than the type's range a wrong bit is returned / deleted
+#                                 (setitem is fine: it converts with int(key) first).
+#  'setitem_nonint_value_unprintable_index'   BitArray / BitStream s[k] = '0b1' (any str / bitstring value) with |k| >= 10**4300: _setitem_int builds its IndexError
+#                                 message with the index in decimal, so ValueError (int -> str digit limit) escapes instead of IndexError.
+#  'index_only'                   an object that has __index__ but is not registered with numbers.Integral (a 0-d numpy array, say): the library decides "index or
+#                                 slice" with isinstance(key, numbers.Integral), so such a key is taken for a slice (AttributeError / a bitstring of 0 bits).
+#  'reg_min_arith'                a class registered with numbers.Integral that has only __index__ / __int__ (no arithmetic, no comparisons): fine as an msb0 index,
+#                                 slice bound and step; under lsb0 (-k - 1, step >= 0) and as a repeat count (n < 0) the library does arithmetic on the key -> TypeError.
+#                                 (The kind 'reg_full', which has the arithmetic of an Integral, is generated everywhere.)
+# 'lsb0_np_unsigned_item' and 'setitem_nonint_value_unprintable_index' were genuine defects of the pinned tree, repaired in /repo as D70 and D71: they are generated.
+# The two that remain are undocumented kinds of key (the library documents int / numbers.Integral): not generated, not defects.
+KNOWN_OPEN = {'index_only', 'reg_min_arith'}
+
+UNPRINTABLE = 10 ** 4300           # the smallest int whose decimal form is refused under the default limit
+
+def open_tag(op, lsb0, keys, val=None):
+    """the KNOWN_OPEN sub-class a combination falls in (None: none)"""
+    for k in keys:
+        if k is None: continue
+        t = k['t']
+        if t == 'index_only': return 'index_only'
+        if t == 'reg_min' and (lsb0 or op == 'kmul'): return 'reg_min_arith'
+        if lsb0 and op in ('kgetitem', 'kdelitem') and t and t.startswith('np.u'): return 'lsb0_np_unsigned_item'
+        if op == 'ksetitem' and val in ('str', 'bits') and 'big' in k and abs(key_val(k)) >= UNPRINTABLE: return 'setitem_nonint_value_unprintable_index'
+    return None
+
+def key_val(k):
+    """the mathematical value of a key (None stays None)"""
+    if k is None: return None
+    if 'big' in k:
+        s, b, e, a = k['big']
+        return s * (b ** e + a)
+    return k['v']
+
+def key_fits(t, v):
+    if t == 'bool': return v in (0, 1)
+    if t == 'intflag': return 0 <= v < 2 ** 80
+    if t in KEY_NP: return KEY_NP[t][0] <= v <= KEY_NP[t][1]
+    return True
+
+def have_numpy():
+    try:
+        import numpy  # noqa
+        return True
+    except Exception:
+        return False
+
+_KEY_CLASSES = {}
+
+def _key_classes():
+    """the integer classes that are not int subclasses (made once; registered with numbers.Integral like gmpy2.mpz registers itself)"""
+    if _KEY_CLASSES: return _KEY_CLASSES
+    import numbers, operator
+
+    class RegMin:
+        """registered with numbers.Integral, nothing but __index__ / __int__"""
+        def __init__(self, v): self._v = v
+        def __index__(self): return self._v
+        def __int__(self): return self._v
+        def __repr__(self): return 'RegMin(..)'
+
+    class IndexOnly:
+        """has __index__ (so every Python sequence takes it as an index), is not registered with numbers.Integral"""
+        def __init__(self, v): self._v = v
+        def __index__(self): return self._v
+        def __repr__(self): return 'IndexOnly(..)'
+
+    class RegFull:
+        """an integer type of its own with the whole arithmetic of an Integral (results are again RegFull), not a subclass of int: what gmpy2.mpz is"""
+        def __init__(self, v): self._v = operator.index(v)
+        def __index__(self): return self._v
+        def __int__(self): return self._v
+        def __repr__(self): return 'RegFull(..)'
+        def __hash__(self): return hash(self._v)
+        def __bool__(self): return self._v != 0
+        def __neg__(self): return RegFull(-self._v)
+        def __pos__(self): return self
+        def __abs__(self): return RegFull(abs(self._v))
+        def __invert__(self): return RegFull(~self._v)
+        def __float__(self): return float(self._v)
+        def __trunc__(self): return self._v
+        def __round__(self, n=None): return self._v
+
+    def _binop(name):
+        def f(self, o):
+            try: o = operator.index(o)
+            except TypeError: return NotImplemented
+            r = getattr(self._v, name)(o)
+            return RegFull(r) if type(r) is int else r
+        f.__name__ = name
+        return f
+    for n in ['add', 'sub', 'mul', 'floordiv', 'mod', 'pow', 'lshift', 'rshift', 'and', 'or', 'xor', 'radd', 'rsub', 'rmul', 'rfloordiv', 'rmod', 'rlshift', 'rrshift',
+              'rand', 'ror', 'rxor', 'lt', 'le', 'gt', 'ge', 'eq', 'ne']:
+        setattr(RegFull, f'__{n}__', _binop(f'__{n}__'))
+    RegFull.__hash__ = lambda self: hash(self._v)
+    numbers.Integral.register(RegMin)
+    numbers.Integral.register(RegFull)
+    _KEY_CLASSES.update(reg_min=RegMin, reg_full=RegFull, index_only=IndexOnly)
+    return _KEY_CLASSES
+
+def key_obj(k):
+    """the key as the object handed to the library"""
+    if k is None: return None
+    v, t = key_val(k), k['t']
+    if t is None: return v
+    if t in ('reg_min', 'reg_full', 'index_only'): return _key_classes()[t](v)
+    if t in KEY_NP:
+        import numpy
+        return getattr(numpy, t[3:])(v)
+    from props import c16
+    return c16.as_count(v, t)
+
+def key_txt(k):
+    if k is None: return ''
+    t = k['t'] or 'int'
+    if 'big' in k:
+        s, b, e, a = k['big']
+        return f"{t}({'-' if s < 0 else ''}({b}**{e}{a:+d}))"
+    return f"{t}({k['v']})"
+
+def _slice_txt(ks):
+    return ':'.join(key_txt(k) for k in ks)
+
+def small_key(t, v):
+    return {'t': t, 'v': v}
+
+BIG_SHAPES = [(2, 31, -1), (2, 31, 0), (2, 32, 0), (2, 63, -1), (2, 63, 0), (2, 63, 1), (2, 64, -1), (2, 64, 0), (2, 64, 1), (2, 70, 0), (2, 128, 0), (10, 400, 0),
+              (10, 4299, -1), (10, 4299, 0), (10, 4300, -1), (10, 4300, 0), (10, 4300, 1), (2, 14284, 0), (2, 14285, 0), (10, 4400, 0), (10, 5000, 7), (16, 4000, 0),
+              (10, 20000, 0), (2, 70000, -1), (7, 9001, 3)]
+
+def big_key(rng, t=None, sign=None, beyond_print=False):
+    """a key far beyond any length: the boundaries of the C integer types and of the decimal-printing limit (4300 digits), and random powers"""
+    if rng.random() < 0.7:
+        shapes = [s for s in BIG_SHAPES if not beyond_print or (s[0] ** s[1] + s[2]) >= UNPRINTABLE]
+        b, e, a = rng.choice(shapes)
+    else:
+        b = rng.choice([2, 3, 10, 10, 16, 255]); a = rng.choice([0, 0, 1, -1, rng.randrange(-1000, 1000)])
+        digits = rng.choice([rng.randrange(4301, 4400), rng.randrange(4301, 30000)] if beyond_print else [rng.randrange(20, 400), rng.randrange(4200, 4400), rng.randrange(4301, 30000)])
+        import math
+        e = int(digits / math.log10(b)) + 2
+    return {'t': t, 'big': [sign if sign is not None else rng.choice([1, -1]), b, e, a]}
+
+def key_candidates(t, l):
+    """the values worth trying as a key of kind t on l bits: every position in and just beyond range, the ends of the type's own range, the usual binary boundaries"""
+    vs = set(range(-l - 2, l + 2)) | {-2 * l - 1, 2 * l + 1}
+    if t in KEY_NP:
+        lo, hi = KEY_NP[t]
+        vs |= {lo, lo + 1, hi - 1, hi, hi // 2, hi // 2 + 1, lo // 2}
+    vs |= {127, 128, -128, -129, 255, 256, -256, 32767, 32768, -32768, 65535, 65536}
+    return sorted(v for v in vs if key_fits(t, v))
+
+def usable_kinds(op, lsb0, numpy_ok=True):
+    return [t for t in KEY_KINDS if (numpy_ok and have_numpy() or t not in KEY_NP) and open_tag(op, lsb0, [{'t': t, 'v': 0}]) not in KNOWN_OPEN]
+
+def rand_key(rng, op, lsb0, l, t='any', numpy_ok=True):
+    """a key of a random (or the given) kind with a value in or just beyond the range of l bits, or at an end of the kind's own range"""
+    if t == 'any': t = rng.choice(usable_kinds(op, lsb0, numpy_ok))
+    cands = key_candidates(t, l)
+    near = [v for v in cands if -l - 2 <= v <= l + 1]
+    return small_key(t, rng.choice(near if near and rng.random() < 0.8 else cands))
+
+def _kcase(op, rng, cls, bits, lsb0, route=None, **kw):
+    c = {'op': op, 'cls': cls, 'bits': bits, 'route': route or (rng.choice(ROUTES) if len(bits) < 5000 and rng.random() < 0.5 else rng.choice(PLAIN_ROUTES)), 'lsb0': bool(lsb0)}
+    c.update(kw)
+    return c
+
+def _emit(c):
+    """drop a combination that falls in a KNOWN_OPEN sub-class"""
+    keys = [c['key']] if 'key' in c else c['k'] if 'k' in c else [c['n']]
+    return None if open_tag(c['op'], c['lsb0'], keys, c.get('val')) in KNOWN_OPEN else c
+
+def item_cases(rng, cls, bits, lsb0, key, route=None, ops=('kgetitem', 'ksetitem', 'kdelitem')):
+    """the single-item operations with one key on one content: read it; assign a bit given in some form; delete it (the immutable classes must refuse both)"""
+    for op in ops:
+        kw = {'key': key}
+        if op == 'ksetitem': kw.update(val=rng.choice(VAL_KINDS if have_numpy() else [v for v in VAL_KINDS if not v.startswith('np.')]), bit=rng.choice([0, 1]))
+        c = _emit(_kcase(op, rng, cls, bits, lsb0, route, **kw))
+        if c: yield c
+
+def gen_keys(rng, tier):
+    quick = tier == 'quick'
+    np_ok = have_numpy()
+    # (1) astronomically large values, both signs, as index / slice bound / step / repeat count, plain and wrapped in the kinds that can hold them
+    for _ in range(260 if quick else 5000):
+        yield from rand_big_cases(rng, tier)
+    # (2) every kind x every class x both numberings: every position in and just beyond range of a short content, by all three item operations
+    for t in KEY_KINDS:
+        if t in KEY_NP and not np_ok: continue
+        for cls in CLASSES:
+            for lsb0 in (False, True):
+                for l in ([rng.choice([1, 2, 3, 4, 5])] if quick else [rng.choice([1, 2, 3]), rng.choice([4, 5, 7, 8]), rng.choice([9, 15, 16, 17, 33])]):
+                    bits = rand_bits(rng, l, 'rand')
+                    for v in range(-l - 2, l + 2):
+                        if not key_fits(t, v): continue
+                        yield from item_cases(rng, cls, bits, lsb0, small_key(t, v), ops=('kgetitem',))
+                        if cls in MUTABLE or rng.random() < 0.25: yield from item_cases(rng, cls, bits, lsb0, small_key(t, v), ops=('ksetitem', 'kdelitem'))
+    # (3) contents longer than a fixed-width kind can count (and as long as it can just count): keys at the ends of the kind's range and of the content
+    lens = [126, 127, 128, 129, 130, 254, 255, 256, 257, 258, 300] + ([32767, 32769, 65536] if quick else [32766, 32767, 32768, 32769, 65534, 65535, 65536, 65537, 70001])
+    for l in lens:
+        bits = rand_bits(rng, l, 'rand')
+        for t in [t for t in KEY_KINDS if t not in ('bool',)]:
+            if t in KEY_NP and not np_ok: continue
+            if l > 300 and t not in ('np.int16', 'np.uint16', 'np.int8', 'np.uint8', 'reg_full', 'intenum') and rng.random() < 0.7: continue
+            cands = [v for v in key_candidates(t, l) if not -l + 2 < v < l - 2 or abs(v) in (0, 1, 2, 3, 126, 127, 128, 129, 254, 255, 256, 32767, 32768, 65535)]
+            for v in (rng.sample(cands, min(len(cands), 5 if quick else 14))):
+                cls = rng.choice(CLASSES); lsb0 = rng.random() < 0.4
+                yield from item_cases(rng, cls, bits, lsb0, small_key(t, v), route='bin' if l > 5000 else None, ops=('kgetitem',) if l > 300 and rng.random() < 0.6 else ('kgetitem', 'ksetitem', 'kdelitem'))
+                if l <= 300 or rng.random() < 0.3:
+                    k = [None, None, None]; k[rng.randrange(3)] = small_key(t, v)
+                    if rng.random() < 0.5: k[rng.randrange(3)] = rand_key(rng, 'kslice', lsb0, l, t)
+                    c = _emit(_kcase('kslice', rng, cls, bits, lsb0, 'bin' if l > 5000 else None, k=k))
+                    if c: yield c
+    # (4) the mix: any kind, any operation, boundary lengths, every construction route, stream positions
+    for _ in range(500 if quick else 9000):
+        c = rand_key_case(rng, tier)
+        if c: yield c
+
+def rand_big_cases(rng, tier):
+    l = rng.choice([0, 0, 1, 1, 2, 4, 8, 9, 64, 65, rand_len(rng, tier)])
+    bits = rand_bits(rng, l); cls = rng.choice(CLASSES); lsb0 = rng.random() < 0.35
+    t = rng.choice([None, None, None, 'intsub', 'intsub_repr', 'intenum', 'reg_full', 'reg_min', 'index_only'])
+    r = rng.random()
+    if r < 0.4:
+        return list(item_cases(rng, cls, bits, lsb0, big_key(rng, t, beyond_print=rng.random() < 0.5)))
+    if r < 0.8:
+        k = [rng.choice([None, None, rand_key(rng, 'kslice', lsb0, l, None)]) for _ in range(3)]
+        for j in rng.sample(range(3), rng.choice([1, 1, 2, 3])): k[j] = big_key(rng, t, beyond_print=rng.random() < 0.5)
+        c = _emit(_kcase('kslice', rng, cls, bits, lsb0, k=k))
+        return [c] if c else []
+    # a huge count: negative on any content (ValueError), positive only on empty content (nothing to allocate; the result is empty)
+    sign = -1 if l else rng.choice([1, 1, -1])
+    c = _emit(_kcase('kmul', rng, cls, bits[:130], lsb0, n=big_key(rng, t, sign=sign, beyond_print=rng.random() < 0.5), form=rng.choice(['mul', 'rmul', 'imul'])))
+    return [c] if c else []
+
+def rand_key_case(rng, tier, l=None):
+    l = rand_len(rng, tier) if l is None else l
+    bits = rand_bits(rng, l); cls = rng.choice(CLASSES); lsb0 = rng.random() < 0.35
+    pos = rng.choice([None, None, 0, l // 2, l])
+    r = rng.random()
+    if r < 0.35:
+        for c in item_cases(rng, cls, bits, lsb0, rand_key(rng, 'kgetitem', lsb0, l), ops=[rng.choice(['kgetitem', 'kgetitem', 'ksetitem', 'kdelitem'])]):
+            c['pos'] = pos
+            return c
+        return None
+    if r < 0.75:
+        k = [rng.choice([None, rand_key(rng, 'kslice', lsb0, l), rand_key(rng, 'kslice', lsb0, l, rng.choice([None, 'any']))]) for _ in range(3)]
+        if all(x is None or x['t'] is None for x in k): k[rng.randrange(3)] = rand_key(rng, 'kslice', lsb0, l, rng.choice(usable_kinds('kslice', lsb0)[1:]))
+        if k[2] is not None and rng.random() < 0.6: k[2] = small_key(k[2]['t'], rng.choice([v for v in [1, -1, 2, -2, 3, -3, 0, l, -l, l + 1, 127, 255, -128] if key_fits(k[2]['t'], v)]))
+        return _emit(_kcase('kslice', rng, cls, bits, lsb0, k=k, pos=pos))
+    form = rng.choice(['mul', 'rmul', 'imul'])
+    t = rng.choice(usable_kinds('kmul', lsb0, numpy_ok=form != 'rmul'))         # numpy scalars only on the right (on the left numpy's own __mul__ answers)
+    lb = min(l, 40)
+    ns = [v for v in [0, 1, 2, 3, 5, 8, 17, 100, 127, 128, 200, 255, 256, -1, -2, -128] + ([KEY_NP[t][0]] if t in KEY_NP else []) if key_fits(t, v) and v * lb <= 12000]
+    return _emit(_kcase('kmul', rng, cls, bits[:lb], lsb0, n=small_key(t, rng.choice(ns)), form=form))
 
 def kind(c):
     return c['op'] if c['op'] != 'hist' else 'hist:' + c['base']['op']
@@ -140,6 +421,9 @@ def gen_base(rng, tier):
     l = rng.choice([0, 0, 1, 2, 3, 5, 7, 8, 9, 16, 17, 33, 64, 65, rand_len(rng, tier)])
     bits = rand_bits(rng, l); cls = rng.choice(CLASSES); route = rng.choice(ROUTES if rng.random() < 0.3 else PLAIN_ROUTES)
     r = lambda: rng.choice([None, None, 0, l, rng.randrange(-l - 3, l + 4)])
+    if rng.random() < 0.2:                    # an integer of another kind or size as index / bound / step / count
+        kc = rand_big_cases(rng, tier) if rng.random() < 0.3 else [rand_key_case(rng, tier, l)]
+        if kc and kc[0]: return kc[0]
     op = rng.choice(['slice', 'getitem', 'seq', 'add', 'radd', 'mul', 'mul', 'rmul', 'imul'])
     lsb0 = rng.random() < 0.2
     if op == 'slice':
@@ -391,6 +675,169 @@ def oracle_hist(c, obs):
                 return pre + f"{describe(e)}{' probed under lsb0' if lsb0 else ''}: {name} gives {str(g)[:100]!r}, the sequence model gives {str(x)[:100]!r} (the expression itself must give {ref[2][:64]!r} of class {ref[1]})"
     return None
 
+KEY_OPS = ('kgetitem', 'kslice', 'kmul', 'ksetitem', 'kdelitem')
+
+def _try(fn):
+    """['ok', value] / ['err', name] of one call inside a case (the watchdog of the case stays armed)"""
+    try: return ['ok', fn()]
+    except Hang: raise
+    except BaseException as e:  # noqa
+        if isinstance(e, (KeyboardInterrupt, SystemExit)): raise
+        return ['err', exn_name(e)]
+
+def _view(r):
+    """what a single-item read returned: a real bool as ['bool', r], a bitstring as [class, bits], anything else by its type"""
+    import bitstring
+    if type(r) is bool: return ['bool', r]
+    if isinstance(r, bitstring.Bits): return [type(r).__name__, r.bin[:200]]
+    return [type(r).__name__, None]
+
+def _bit_value(valkind, bit):
+    """the bit to assign, in the form valkind"""
+    import bitstring
+    if valkind == 'bool': return bool(bit)
+    if valkind == 'int': return bit
+    if valkind == 'str': return '0b1' if bit else '0b0'
+    if valkind == 'bits': return bitstring.Bits(bin=str(bit))
+    return key_obj({'t': valkind, 'v': bit})
+
+def run_key(c):
+    import warnings
+    with warnings.catch_warnings():
+        warnings.simplefilter('ignore')          # numpy announces the wrap-around of fixed-width arithmetic on stderr; only the outcome is judged
+        return _run_key(c)
+
+def _run_key(c):
+    import bitstring
+    op = c['op']
+    s = build(c['cls'], c['bits'], c['route'], c.get('pos'))
+    if c.get('lsb0'): bitstring.options.lsb0 = True          # the object is built under msb0; only the operation runs under lsb0 (reset by the driver)
+    if op == 'kgetitem':
+        k = key_obj(c['key'])
+        return attempt(lambda: [_try(lambda: _view(s[k])), s.bin == c['bits']])
+    if op == 'kslice':
+        key = slice(*[key_obj(k) for k in c['k']])
+        def sl():
+            r = s[key]
+            return [r.bin, type(r).__name__, getattr(r, 'pos', None)]
+        return attempt(lambda: [_try(sl), s.bin == c['bits']])
+    if op == 'kmul':
+        form = c['form']
+        if form == 'imul' and c['cls'] not in MUTABLE: return ('ok', [['ok', ['skip']], True])
+        n = key_obj(c['n'])
+        def mul():
+            if form == 'imul':
+                t = s; t *= n; r = t
+            else:
+                r = s * n if form == 'mul' else n * s
+            return [r.bin, type(r).__name__]
+        return attempt(lambda: [_try(mul), form == 'imul' or s.bin == c['bits']])
+    if op == 'ksetitem':
+        k = key_obj(c['key']); x = _bit_value(c['val'], c['bit'])
+        def st(): s[k] = x
+        return attempt(lambda: [_try(st), s.bin])
+    if op == 'kdelitem':
+        k = key_obj(c['key'])
+        def dl(): del s[k]
+        return attempt(lambda: [_try(dl), s.bin])
+    raise AssertionError(op)
+
+def oracle_key(c, obs):
+    """the same operation with the plain int of the same value on the str / list of the bits (under lsb0: of the bits counted from the other end)"""
+    op, bits, cls, lsb0 = c['op'], c['bits'], c['cls'], bool(c.get('lsb0'))
+    seq = bits[::-1] if lsb0 else bits
+    back = (lambda x: x[::-1]) if lsb0 else (lambda x: x)
+    who = f"{'lsb0 ' if lsb0 else ''}{cls}({bits[:40]!r}{'...' if len(bits) > 40 else ''} of {len(bits)} bits via {c['route']})"
+    if obs[0] != 'ok' or not isinstance(obs[1], (list, tuple)) or len(obs[1]) != 2: return f"{who}: {op} could not be observed: {str(obs)[:200]}"
+    inner, rest = obs[1]
+    inner = [inner[0], inner[1]]
+    if isinstance(inner[1], tuple): inner[1] = list(inner[1])
+    show = lambda x: str(x)[:160]
+    if op == 'kgetitem':
+        i = key_val(c['key'])
+        try: exp = ['ok', ['bool', seq[i] == '1']]
+        except IndexError: exp = ['err', 'IndexError']
+        if inner != exp: return f"{who}[{key_txt(c['key'])}] gave {show(inner)}; the sequence of bits gives {exp} (as for the plain int of that value)"
+        if rest is not True: return f"{who}[{key_txt(c['key'])}] changed its operand"
+        return None
+    if op == 'kslice':
+        a, b, st = [key_val(k) for k in c['k']]
+        try: exp = ['ok', back(seq[a:b:st])]
+        except ValueError: exp = ['err', 'ValueError']
+        txt = f"{who}[{_slice_txt(c['k'])}]"
+        if exp[0] == 'err':
+            if inner != exp: return f"{txt} should raise ValueError (step 0), got {show(inner)}"
+        elif inner[0] != 'ok' or inner[1][0] != exp[1] or inner[1][1] != cls or inner[1][2] not in (None, 0):
+            got = inner if inner[0] != 'ok' else [f"{len(inner[1][0])} bits {inner[1][0][:64]!r}", inner[1][1], inner[1][2]]
+            return f"{txt} gave {show(got)}; the sequence of bits gives {len(exp[1])} bits {exp[1][:64]!r} of class {cls} (as for plain ints of those values)"
+        if rest is not True: return f"{txt} changed its operand"
+        return None
+    if op == 'kmul':
+        if inner == ['ok', ['skip']]: return None
+        n = key_val(c['n']); form = c['form']
+        txt = f"{key_txt(c['n'])} * {who}" if form == 'rmul' else f"{who} {'*=' if form == 'imul' else '*'} {key_txt(c['n'])}"
+        if n < 0:
+            if inner != ['err', 'ValueError']: return f"{txt}: a negative count should raise ValueError, got {show(inner)}"
+        elif 'big' in c['n']:
+            if bits: return None                              # (not generated: nothing is stated about a product that cannot be held)
+            if inner != ['ok', ['', cls]] and inner != ['err', 'OverflowError']:
+                return f"{txt}: the empty sequence repeated any number of times is empty (str raises OverflowError for a count beyond the machine word), got {show(inner)}"
+        elif inner != ['ok', [bits * n, cls]]:
+            got = inner if inner[0] != 'ok' else [f"{len(inner[1][0])} bits", inner[1][1]]
+            return f"{txt} gave {show(got)}, expected {len(bits) * n} bits ({(bits * n)[:64]!r}) of class {cls} (as for the plain int of that value)"
+        if rest is not True: return f"{txt} changed its operand"
+        return None
+    if op in ('ksetitem', 'kdelitem'):
+        i = key_val(c['key'])
+        txt = f"{who}[{key_txt(c['key'])}] = {c['val']}({c['bit']})" if op == 'ksetitem' else f"del {who}[{key_txt(c['key'])}]"
+        if cls not in MUTABLE:
+            # the immutable sequence of the bits (a tuple) refuses with TypeError - except that CPython converts an index beyond the machine word first (IndexError)
+            tup = tuple(seq)
+            try:
+                if op == 'ksetitem': tup[i] = str(c['bit'])
+                else: del tup[i]
+                ref = None
+            except (TypeError, IndexError) as e: ref = type(e).__name__
+            if inner not in (['err', 'TypeError'], ['err', ref]) or rest != bits:
+                return f"{txt} on an immutable class should raise TypeError and change nothing, got {show(inner)}, bits afterwards {show(rest)}"
+            return None
+        l = list(seq)
+        try:
+            if op == 'ksetitem': l[i] = str(c['bit'])
+            else: del l[i]
+            exp, after = ['ok', None], back(''.join(l))
+        except IndexError:
+            exp, after = ['err', 'IndexError'], bits
+        if inner != exp: return f"{txt} gave {show(inner)}; the list of bits gives {exp} (as for the plain int of that value)"
+        if rest != after:
+            d = next((j for j, (x, y) in enumerate(zip(rest, after)) if x != y), min(len(rest), len(after)))
+            return f"{txt} left {len(rest)} bits, the list of bits has {len(after)}; first difference at bit {d}: {rest[d:d + 24]!r} instead of {after[d:d + 24]!r}"
+        return None
+    raise AssertionError(op)
+
+def plain_case(c):
+    """the case of the older kind that says the same with plain ints (None when the model has nothing to say: huge numbers, very long data, assignment / deletion)"""
+    op = c['op']
+    keys = [c['key']] if op == 'kgetitem' else c['k'] if op == 'kslice' else [c['n']] if op == 'kmul' else None
+    if keys is None or any(k is not None and 'big' in k for k in keys) or len(c['bits']) > 5000: return None
+    base = {'cls': c['cls'], 'bits': c['bits'], 'route': c['route'], 'lsb0': bool(c.get('lsb0'))}
+    if op == 'kgetitem': return dict(base, op='getitem', i=key_val(c['key']))
+    if op == 'kslice': return dict(base, op='slice', k=[key_val(k) for k in c['k']])
+    if c.get('lsb0'): return None                      # (bs_mul is rendered for msb0 only, as for the plain counts)
+    return dict(base, op=c['form'], n=key_val(c['n']))
+
+def coq_key(c, obs):
+    p = plain_case(c)
+    if p is None: return None
+    if obs[0] != 'ok': return 'false'
+    inner = obs[1][0]
+    if inner[0] != 'ok': o = ('err', inner[1])
+    elif p['op'] == 'getitem':
+        if inner[1][0] != 'bool': return 'false'       # not a bool at all: nothing the model can give
+        o = ('ok', inner[1][1])
+    else: o = ('ok', list(inner[1]))
+    return coq_check(p, o)
+
 def run_impl(c):
     import bitstring
     op = c['op']
@@ -398,6 +845,7 @@ def run_impl(c):
     if op == 'l0_slice':
         a, b, s = c['k']
         return attempt(lambda: ''.join(list(c['bits'])[slice(a, b, s)]))
+    if op in KEY_OPS: return run_key(c)
     s = build(c['cls'], c['bits'], c['route'], c.get('pos'))
     if c.get('lsb0'): bitstring.options.lsb0 = True          # the object is built under msb0; only the indexing runs under lsb0 (reset by the driver)
     if op == 'slice':
@@ -434,6 +882,7 @@ def run_impl(c):
 def oracle(c, obs):
     op = c['op']
     if op == 'hist': return oracle_hist(c, obs)
+    if op in KEY_OPS: return oracle_key(c, obs)
     bits = c['bits']
     if op == 'l0_slice': return None
     if c.get('lsb0'):
@@ -496,6 +945,7 @@ def coq_check(c, obs):
     op = c['op']
     if op == 'hist':           # the model knows no history: the case inside is evaluated as it is
         return coq_check(c['base'], _base_obs(obs)) if obs[0] == 'ok' else None
+    if op in KEY_OPS: return coq_key(c, obs)
     if op == 'l0_slice':
         return f"rbits_eqb (seq_slice false {cbits(c['bits'])} {cslice(*c['k'])}) {cres(obs, cbits)}"
     if op == 'slice':
@@ -527,6 +977,9 @@ def coq_check(c, obs):
 def coq_model_term(c):
     if c['op'] == 'hist': return coq_model_term(c['base'])
     op = c['op']
+    if op in KEY_OPS:
+        p = plain_case(c)
+        return coq_model_term(p) if p else 'tt'
     if op == 'slice': return f"bs_getitem_slice false {cbits(c['bits'])} {cslice(*c['k'])}"
     if op == 'getitem': return f"bs_getitem_int false {cbits(c['bits'])} {cz(c['i'])}"
     if op in ('mul', 'rmul', 'imul'): return f"bs_mul false {cbits(c['bits'])} {cz(c['n'])}"
@@ -534,7 +987,8 @@ def coq_model_term(c):
     return 'tt'
 
 def search(seeds, rng):
-    pool = list(seeds) + list(gen_cases(rng, 'thorough'))[:40000]
+    allc = list(gen_cases(rng, 'thorough'))
+    pool = list(seeds) + allc[:40000] + [c for c in allc[40000:] if c['op'] in KEY_OPS][:20000]
     for c in pool:
         try: obs = run_impl(c)
         finally: reset_options()
